@@ -189,11 +189,11 @@ type sysInput struct {
 }
 
 type sysCase struct {
-	File   string    `json:"file,omitempty"`  // ROM under /repo/gameboy/testdata
-	Image  *c11Spec  `json:"image,omitempty"` // or a generated image
-	Video  bool      `json:"video"`
-	Audio  bool      `json:"audio"`
-	Frames int       `json:"frames"`
+	File   string     `json:"file,omitempty"`  // ROM under /repo/gameboy/testdata
+	Image  *c11Spec   `json:"image,omitempty"` // or a generated image
+	Video  bool       `json:"video"`
+	Audio  bool       `json:"audio"`
+	Frames int        `json:"frames"`
 	Inputs []sysInput `json:"inputs,omitempty"`
 }
 
